@@ -588,6 +588,8 @@ class History:
         self.serial = 0
         self.persistent = None
         self.handles = {}
+        self.source_of = {}  # op index -> package source of a publish (None for trainings) of crash-enumerated operations
+        self.recoveries = 0
         self.writer = 'fresh'
         self.staging = None  # the registry's staging= option (another file system) for this history
 
@@ -638,6 +640,7 @@ class History:
             if crashing:
                 expected = self.model.clone()
                 advance(expected, op, files, None)
+                self.source_of[index] = source
                 crashed = self.enumerate_crashes(index, op, source, expected)
             if self.only_crash is not None and self.only_crash['op_index'] == index:
                 self.settle(index, op, crashed, before_view, before_tree)
@@ -853,6 +856,21 @@ class History:
                     break
             if seen == before:
                 ctx.count('crash_outcome_before')
+                if self.source_of.get(index, ()) is not () and self.recoveries < 3 and not self.reader.process:
+                    # recovery in ONE process: this reader has just listed the interrupted registry; the same process re-runs the
+                    # operation and lists again - it must now see the complete new item
+                    self.recoveries += 1
+                    ctx.count('crash_recoveries_checked')
+                    try:
+                        perform(self.directory(root, 'fresh'), op, self.source_of[index])
+                        again = normalised(json.loads(json.dumps(self.reader.read([root], verify=False)[0][0])))
+                    except Exception as err:  # pylint: disable=broad-except
+                        again = {'raised': repr(err)}
+                    if again != after:
+                        first = next(iter(diff(after, again))) if 'raised' not in again else ((), after, again)
+                        keys.append(('recovery-in-the-listing-process-incomplete',
+                                     f'the process that listed the interrupted registry re-ran the operation and still sees '
+                                     f'{first[2]!r:.120} at {"/".join(map(str, first[0]))} (model: {first[1]!r:.120})'))
             elif seen == after:
                 ctx.count('crash_outcome_after')
             else:
